@@ -112,6 +112,15 @@ for _k in ("null", "true", "false", "string", "number", "container"):
     TIE_SOURCES["make_%s_jentry_agrees" % _k] = ["src/jentry.rs::struct JEntry", "src/jentry.rs::JEntry::make_%s_jentry" % _k]
     TIE_SOURCES["%s_word_agrees" % _k] = ["src/jentry.rs::struct JEntry", "src/jentry.rs::JEntry::make_%s_jentry" % _k, "src/jentry.rs::JEntry::encoded"]
 
+EXTRA_THEOREMS = {
+    "C09": {"modules": ["JsonbModel.Proofs.PathEscapes", "JsonbModel.Proofs.PathArith"],
+            "theorems": ["C09_every_rendering_rooted_esc", "C09_every_rendering_predicate_esc", "C09_esc_contains_plain", "C09_C16_string_decodes",
+                         "C09_every_rendering_rooted_arith", "C09_every_rendering_predicate_arith", "C09_arith_contains_esc",
+                         "C09_arith_binary_predicate", "C09_arith_unary_predicate", "C09_print_parse_arith"]},
+    "C16": {"modules": ["JsonbModel.Proofs.PathEscapes"],
+            "theorems": ["C16_every_rendering_esc", "C16_esc_contains_plain", "C09_C16_string_decodes"]},
+}
+
 TRUSTED_BASE = [
     "Lean 4.33.0 kernel (thorough tier re-checks the theorem module with leanchecker)",
     "axioms: only propext, Classical.choice, Quot.sound (audited per theorem by #print axioms on every run); no native_decide, no bv_decide, no user axioms, no sorry",
@@ -197,7 +206,7 @@ PROPS = {
     "C09": {
         "panic_is_violation": True,
         "proved": 'parser model over a model of the nom 7.1.3 combinators total for every byte string; print -> parse identity for the whole documented language: steps, index lists, ranges, `last` offsets, filter steps and predicates with comparisons of `$`/`@` operand paths and literals of every scalar kind (negative, fractional, exponent numbers, the empty string), `&&` / `||` in any nesting (printer parentheses faithful), `exists` with nested filters (C09_print_parse); `&&` binds tighter than `||` (C09_precedence); EVERY rendering with arbitrary white-space runs, `last`/`to` in any case, any quoting style of names, escapes in quoted strings, `!=`/`<>` parses to the structure it renders (C09_every_rendering_*, C09_every_style); accepted ASTs are well formed (i32 indices, u64/i64 literals, valid UTF-8)',
-        "missing": 'known findings D22a (`."5e"` prints as `.5e`, rejected) and D22b (`-1e999` prints as `-inf`, rejected), proved as C09_finding_*; float literals depend on the formatter hypothesis goodFloat; arithmetic atoms and `\\u{…}` / surrogate escapes in names are outside the print->parse theorem (oracle jproundtrip / jpexpect)',
+        "missing": 'known findings D22a (`."5e"` prints as `.5e`, rejected) and D22b (`-1e999` prints as `-inf`, rejected), proved as C09_finding_*; float literals depend on the formatter hypothesis goodFloat; arithmetic atoms (C09_arith_*, C09_print_parse_arith) and `\\u{…}` / surrogate-pair escapes in quoted names and string literals (C09_every_rendering_*_esc) are proved; escapes in UNQUOTED names and unpaired surrogates (kept literal, proved as such) rest on correspondence',
         "assumptions": [],
     },
     "C15": {
@@ -209,7 +218,7 @@ PROPS = {
     "C16": {
         "panic_is_violation": True,
         "proved": 'key path parser total for every byte string; every brace-delimited rendering with arbitrary white space around braces, commas and elements parses to its elements (signed integer -> index, quoted string with escapes decoded -> quoted name, name characters -> plain name; C16_every_rendering, C16_empty_any_spacing); print -> parse identity whenever names need no escapes; unterminated quotes / missing braces are errors',
-        "missing": '`\\u{…}` and surrogate-pair escapes inside quoted names: oracle (kpexpect / kproundtrip) and correspondence',
+        "missing": 'nothing known for quoted names (every escaped spelling incl. `\\u{…}` and surrogate pairs: C16_every_rendering_esc); escapes in UNQUOTED names rest on correspondence',
         "assumptions": [],
     },
     "C17": {
